@@ -165,22 +165,46 @@ Theorem C08_ws_keepalive_refuted_before_fix :
 Proof. exact ws_keepalive_refuted_before_fix. Qed.
 
 (** ** I. stage 2: shutdown always completes (queue capacity [cap] >= 1 as a parameter) *)
-(** From every reachable configuration that is on its way out (closing has begun, or the client
-    closed / dropped, or the server closed its socket), every run of internal steps — every
+(** A handler callback may return only when the handler's context is cancelled ([RWaitCancel]: a resolver
+    waiting for a backend with the request's context); [beginClosing] cancels that context ([IRCancelled]
+    needs [closing]).  [settling c]: closing has begun, or the connection is ending in another way (the
+    client closed / dropped, the server closed its socket) and the read loop is not inside such a
+    callback.
+    From every reachable settling configuration, every run of internal steps — every
     schedule of read loop, write loop, subscription goroutines and closers — has at most [mu c]
     steps, and a run that cannot be extended ends in the configuration where every actor has
     terminated, HandleClose has run, the connection is deregistered and every stream has been
     stopped exactly once. *)
 Theorem C08_ws_quiescent : forall cap, 1 <= cap -> forall c,
-  reachable cap true c -> ending c = true ->
+  reachable cap true c -> settling c = true ->
   forall ls c', Forall (fun l => internal l = true) ls -> arun cap true c ls = Some c' ->
     List.length ls <= mu c /\
     ((forall l, internal l = true -> astep cap true c' l = None) -> all_gone c' = true /\ cleaned c').
 Proof. exact quiescent. Qed.
 
+(** in particular: close completes even if a handler call only returns upon cancellation — once closing has
+    begun (by the read loop, by the application's Close(), by the write loop on its way out) … *)
+Theorem C08_ws_close_completes_upon_cancellation : forall cap, 1 <= cap -> forall c,
+  reachable cap true c -> closing c = true ->
+  forall ls c', Forall (fun l => internal l = true) ls -> arun cap true c ls = Some c' ->
+    List.length ls <= mu c /\
+    ((forall l, internal l = true -> astep cap true c' l = None) -> all_gone c' = true /\ cleaned c').
+Proof. exact close_completes_upon_cancellation. Qed.
+(** … and a failing write (the client has gone while the read loop waits in such a callback) begins closing *)
+Theorem C08_ws_write_failure_begins_closing : forall cap c l c',
+  astep cap true c l = Some c' -> (l = ETickFail \/ l = IWTakeFail) -> closing c' = true.
+Proof. exact write_failure_begins_closing. Qed.
+(** before that repair: drop during such a callback, the write loop fails a write and exits, nobody has
+    begun closing: nobody can move, the read loop has not ended, HandleClose has not run *)
+Theorem C08_ws_quiescent_refuted_before_fix_cancel :
+  exists c, arun 100 false init_cfg (firstn 3 stuck_waiting_run) = Some c /\ ending c = true /\
+            (forall l, internal l = true -> astep 100 false c l = None) /\
+            all_gone c = false /\ finished c = false /\ registered c = true.
+Proof. exact quiescent_refuted_before_fix_cancel. Qed.
+
 (** and such a run exists *)
 Theorem C08_ws_quiescent_run_exists : forall cap, 1 <= cap -> forall n c,
-  mu c <= n -> reachable cap true c -> ending c = true ->
+  mu c <= n -> reachable cap true c -> settling c = true ->
   exists ls c', Forall (fun l => internal l = true) ls /\ arun cap true c ls = Some c' /\
                 all_gone c' = true /\ cleaned c'.
 Proof. exact quiescent_run_exists. Qed.
@@ -287,6 +311,9 @@ Print Assumptions C08_ws_id_reuse_refuted_before_fix.
 Print Assumptions C08_ws_keepalive_refuted_before_fix.
 Print Assumptions C08_ws_quiescent.
 Print Assumptions C08_ws_quiescent_run_exists.
+Print Assumptions C08_ws_close_completes_upon_cancellation.
+Print Assumptions C08_ws_write_failure_begins_closing.
+Print Assumptions C08_ws_quiescent_refuted_before_fix_cancel.
 Print Assumptions C08_ws_actors_stop_at_most_once.
 Print Assumptions C08_ws_quiescent_refuted_before_fix_reader.
 Print Assumptions C08_ws_quiescent_refuted_before_fix_goroutine.
